@@ -193,6 +193,19 @@ CHECKS = [
   "design_ref": "DESIGN.md §5 C07",
   "note": _TB + "termination of runs of reductions (no epsilon-reduction cycle in the table) is a hypothesis; on conflict-resolved tables it fails (known findings).",
   "technique": "Coq proof (progress invariant of the recovery driver by induction over errors) + differential of error lists and outcomes"},
+ {"id": "C06",
+  "text": "Coq theorems on a verified REFERENCE: all_min_repairs enumerates (by iterative deepening on cost, pure sequence semantics, no "
+          "arbitrary length bound since a success stops at N shifts: first_success_length) exactly the stripped minimum-cost successes that "
+          "parse furthest (reference_complete / reference_none, enum_exact), Del/Ins commute (so the normal form loses no cheaper repair), "
+          "the simplified output is NoDup, ends in no Shift, is sorted by (avoid_insert, length), never inserts EOF and has one cost "
+          "(simplify_postconditions). An executable MIRROR of the bucketed search (dijkstra + merging + rank + simplify) exists and the "
+          "pinned search is refuted against the reference (search_complete_refuted; repaired in /repo); that the repaired search returns "
+          "exactly the reference set for all inputs is stated (search_complete_stmt true) but NOT proved: partial. Per generated error the "
+          "implementation's list is compared with the reference set (missing / extra / over-priced sequence = witness) and the ordering, "
+          "dedup, equal-cost, no-trailing-shift, no-EOF clauses are checked directly.",
+  "design_ref": "DESIGN.md §5 C06, §5B",
+  "note": _TB + "completeness of the bucketed search for ALL inputs is decided per generated (grammar, input, costs) against the verified reference; reference capped by enumeration size (skipped cases counted).",
+  "technique": "Coq proof (verified exhaustive reference for minimum-cost repair sets) + set-equality differential with the implementation's repair lists"},
 ]
 
 _PENDING = "check not built yet in this round (work in progress; see DESIGN.md §10 build order)"
